@@ -134,7 +134,7 @@ def para(rng):
     return '\n'.join(lines), '<p>' + '\n'.join(lines) + '</p>'
 
 
-CODE_CONTENT = ['*not em*', '<b>raw</b> & co', '[l](u) http://a.b', '{m} {undefined|x}', '. x', '# no header', '- no list', '', '  indented',
+CODE_CONTENT = ['std::cout << x;', 'Foo::Bar.new', 'a::b c:::d', '*not em*', '<b>raw</b> & co', '[l](u) http://a.b', '{m} {undefined|x}', '. x', '# no header', '- no list', '', '  indented',
                 '> q', '.cls #id', "{m}='v'", '// c', '&amp; &#160;', '\\*esc*', 'plain code', 'a::b', '"q"', '/* c */', '<div>']
 
 
